@@ -44,14 +44,17 @@ void h_skipWs(void) { Parser *p; Parser_skipWhitespaceOutsideText(p); IORA_CANAR
 
 /* ---- matchString ---- */
 DECL_match(Parser_matchString_safe, MATCH_SAFE)
-DECL_match(Parser_matchString_exact, MATCH_EXACT)
+DECL_match(Parser_matchString_sound, MATCH_SOUND)
+DECL_match(Parser_matchString_complete, MATCH_COMPLETE)
 /* the harness plays the caller: an arbitrary C string of at most 7 characters in an 8-byte array */
 void h_matchString(void) { Parser *p; char w[8]; w[7] = 0; bool r = Parser_matchString(p, w); IORA_CANARY("h_matchString: returns");
   if (r) { IORA_CANARY("h_matchString: matched"); } else { IORA_CANARY("h_matchString: no match"); } }
 
 /* ---- matchWordCaseInsensitive ---- */
 DECL_match(Parser_matchWordCaseInsensitive_safe, MATCH_SAFE)
-DECL_match(Parser_matchWordCaseInsensitive_exact, MATCHWORD_EXACT)
+DECL_match(Parser_matchWordCaseInsensitive_sound, MATCHWORD_SOUND)
+/* MATCHWORD_COMPLETE (a present word + boundary is always recognised) is stated in contracts.h but NOT proved: the back end runs out of
+ * memory (8 GB) on it; see NOTES.md. It is not used by any other unit. */
 void h_matchWord(void) { Parser *p; char w[8]; w[7] = 0; bool r = Parser_matchWordCaseInsensitive(p, w); IORA_CANARY("h_matchWord: returns");
   if (r) { IORA_CANARY("h_matchWord: matched"); } else { IORA_CANARY("h_matchWord: no match"); } }
 
@@ -60,7 +63,7 @@ DECL_readName(Parser_readName_safe, RNAME_SAFE)
 DECL_readName(Parser_readName_run, RNAME_RUN)
 DECL_readName(Parser_readName_slice, RNAME_SLICE)
 void h_readName(void) { Parser *p; iora_sv r = Parser_readName(p); IORA_CANARY("h_readName: returns");
-  if (r.n > 0) { IORA_CANARY("h_readName: name"); } else if (p->_hasError) { IORA_CANARY("h_readName: too long or earlier error"); } else { IORA_CANARY("h_readName: none"); } }
+  if (r.n > 0) { IORA_CANARY("h_readName: name"); } else { IORA_CANARY("h_readName: none or too long"); } }
 
 /* ---- readUntil ---- */
 DECL_readUntil(Parser_readUntil_safe, UNTIL_SAFE)
